@@ -74,11 +74,13 @@ def run_sessions(o, binary, sessions, mode, tag):
 
     recs = common.parallel(rec, sessions, nthreads=4)
     lines = []
+    plines = []
     npoints = 0
     digests = set()
     descs = collections.Counter()
     for ci, ((name, steps), (sess, pts, res)) in enumerate(zip(sessions, recs)):
         lines += crashrun.judge_lines(ci, mode, sess["events"], pts, res)
+        plines += crashrun.proto_lines(ci, pts, sess["events"])
         npoints += len(pts)
         for p in pts:
             digests.add(p.digest)
@@ -94,7 +96,21 @@ def run_sessions(o, binary, sessions, mode, tag):
         o.report(signature(b), "session %s crash point %s after syscall '%s': %s; recovered map %s; error %s" % (
             name, b.get("idx"), b.get("desc"), b.get("clause"), b.get("m"), b.get("err", "")[:300]),
             {"session": name, "steps": steps, "idx": b.get("idx"), "mode": mode})
-    return npoints, len(digests), descs, nok, len(bad)
+    # protocol conformance of the syscall sequence itself (every step must be an enabled step of the disk protocol)
+    pp = os.path.join(common.scratch("cj-" + tag), "proto.ndjson")
+    common.write_ndjson(pp, plines)
+    pnok, pbad, pr = judge.judge_trace("DiskProtoTrace.tla", "DiskProtoTrace.cfg", pp, o, "disk protocol conformance " + tag, heap="4g")
+    seen = set()
+    for b in pbad:
+        case = b.get("case", -1)
+        name, steps = sessions[case] if 0 <= case < len(sessions) else ("?", None)
+        if (b["clause"], case) in seen:
+            continue
+        seen.add((b["clause"], case))
+        o.report("proto/%s" % b["clause"], "session %s: syscall is not an enabled step of the disk protocol (%s): %s" % (name, b["clause"], b.get("ev", "")[:400]),
+                 {"session": name, "steps": steps, "mode": mode})
+    o.extra["protocol_steps_conforming"] = o.extra.get("protocol_steps_conforming", 0) + (pnok or 0)
+    return npoints, len(digests), descs, nok, len(bad) + len(pbad)
 
 
 def run(tier, pid=PID, mode="sync"):
